@@ -53,4 +53,100 @@ theorem reachable_good (s : State) (h : Reachable (· ∈ inits) Step s) : good 
       · exact ih
       · exact .tail ih (mem_succs_of_step _ _ _ _ h')
 
+/-- `good` spelled out (the statement of `dep_protocol_exhaustive`) -/
+theorem good_spec (s : State) (h : good s = true) :
+    (-3 ≤ s.cntI ∧ s.cntI ≤ 2) ∧ s.bad = false ∧ 0 ≤ s.vwnI ∧ s.vwnI = 1 - (s.notified + s.finA : Nat) ∧
+    s.notified + s.finA ≤ 1 ∧
+    (s.notified + s.finA = 1 → s.a ≠ .idle ∧ s.condOK = true ∧ (s.estTrue = false ∨ s.tgtSealed = true)) ∧
+    (s.a = .idle → s.notified = 0 ∧ s.finA = 0) ∧
+    (s.notified + s.finA = 1 → s.rdy = s.estTrue) ∧ (s.rdy = true → s.est = true ∧ s.tgtSealed = true) ∧
+    s.trigT + s.actT ≤ 1 ∧ (s.trigT + s.actT = 1 → s.a ≠ .idle ∧ s.estTrue = true ∧ s.condOK = true) ∧
+    s.trigC ≤ 1 ∧ (s.trigC = 1 → s.a ≠ .idle ∧ s.cfg.hasCond = true) ∧
+    s.runnable ≤ 1 ∧ s.invoked ≤ s.runnable ∧ s.runnable ≤ s.notified + s.finA ∧
+    (s.a = .done → (s.c = .idle ∨ s.c = .done) → (s.t = .idle ∨ s.t = .done) →
+      (s.cfg.hasCond = true → s.c = .idle → s.trigC = 1) ∧
+      ((s.cfg.hasCond = false ∨ s.c = .done) → s.estTrue = true → s.t = .idle → s.trigT + s.actT = 1) ∧
+      ((s.cfg.hasCond = false ∨ s.c = .done) → (s.estTrue = false ∨ s.t = .done) →
+         s.notified + s.finA = 1 ∧ s.invoked = 1)) := by
+  simp only [good, Bool.and_eq_true, Bool.or_eq_true, decide_eq_true_eq, beq_iff_eq,
+    bne_iff_ne, ne_eq, Bool.not_eq_eq_eq_not, Bool.not_true, and_assoc] at h
+  obtain ⟨h1, h2, h3, h4, h5, h6, h7, h8, h9, h10, h11, h12, h13, h14, h15, h16, h17⟩ := h
+  refine ⟨⟨by simp only [State.cntI]; omega, by simp only [State.cntI]; omega⟩, h2,
+    by simp only [State.vwnI]; omega, by simp only [State.vwnI]; omega, h5, ?_, ?_, ?_, ?_, h10, ?_, h12, ?_, h14, h15, h16, ?_⟩
+  · intro h; rcases h6 with h' | h'
+    · omega
+    · exact h'
+  · intro h; rcases h6 with h' | h'
+    · omega
+    · exact absurd h h'.1
+  · intro h; rcases h7 with h' | h'
+    · omega
+    · exact h'
+  · intro h; rcases h8 with h' | h'
+    · rw [h] at h'; cases h'
+    · exact h'
+  · intro h; rcases h11 with h' | h'
+    · omega
+    · exact h'
+  · intro h; rcases h13 with h' | h'
+    · omega
+    · exact h'
+  · intro ha hc ht
+    have hpre : (s.a == APc.done && (s.c == CPc.idle || s.c == CPc.done) && (s.t == TPc.idle || s.t == TPc.done)) = true := by
+      rcases hc with hc | hc <;> rcases ht with ht | ht <;> simp [ha, hc, ht]
+    rcases h17 with h' | ⟨a1, a2, a3⟩
+    · rw [hpre] at h'; cases h'
+    · refine ⟨?_, ?_, ?_⟩
+      · intro hh hci
+        rcases a1 with a1 | a1
+        · simp [hh, hci] at a1
+        · exact a1
+      · intro hh he hti
+        rcases a2 with a2 | a2
+        · rcases hh with hh | hh <;> simp [hh, he, hti] at a2
+        · exact a2
+      · intro hh he
+        rcases a3 with a3 | a3
+        · rcases hh with hh | hh <;> rcases he with he | he <;> simp [hh, he] at a3
+        · exact a3
+
+/-! Concrete schedules (non-vacuity of `dep_protocol_exhaustive`). -/
+def runSched (s : State) : List Actor → Option State
+  | [] => some s
+  | x :: xs =>
+    match step s x false with
+    | some (s', _) => runSched s' xs
+    | none => none
+
+theorem runSched_reachable {s s' : State} {xs : List Actor} (h0 : Reachable (· ∈ inits) Step s)
+    (h : runSched s xs = some s') : Reachable (· ∈ inits) Step s' := by
+  induction xs generalizing s with
+  | nil => simp [runSched] at h; exact h ▸ h0
+  | cons x xs ih =>
+    simp only [runSched] at h
+    cases hst : step s x false with
+    | none => simp [hst] at h
+    | some r =>
+      obtain ⟨s1, l⟩ := r
+      simp only [hst] at h
+      exact ih (.tail h0 (.act s x false s1 l hst)) h
+
+/-- T, then C with a false condition (two decrements), then A: counter 0 → -1 → -2 → -3 → -1 -/
+def witnessSched : List Actor := [.T, .T, .T, .C, .C, .C, .C, .A, .A, .A]
+def witness : State :=
+  match runSched (State.init ⟨true, false⟩) witnessSched with
+  | some s => s
+  | none => State.init ⟨true, false⟩
+theorem witness_reachable : Reachable (· ∈ inits) Step witness :=
+  runSched_reachable (s := State.init ⟨true, false⟩) (xs := witnessSched) (.base (by decide)) (by decide)
+
+/-- A, then C with a true condition (activates the target), then T (tells the source) -/
+def witness2Sched : List Actor := [.A, .A, .C, .C, .C, .C, .T, .T, .T, .T, .T]
+def witness2 : State :=
+  match runSched (State.init ⟨true, true⟩) witness2Sched with
+  | some s => s
+  | none => State.init ⟨true, true⟩
+theorem witness2_reachable : Reachable (· ∈ inits) Step witness2 :=
+  runSched_reachable (s := State.init ⟨true, true⟩) (xs := witness2Sched) (.base (by decide)) (by decide)
+
 end Babylon.Anyflow.Dep
